@@ -65,6 +65,12 @@ fn repl_polys(repl: &[(u64, FuncSpec)]) -> BTreeMap<u64, Poly> {
 
 fn apply_order(inst: &mut v1::Instance, order: &Option<Vec<u64>>, x: &mut Exec) {
     if let Some(o) = order {
+        // an order of more than seven keys cannot be forced by searching hash seeds (8! tries and more): such maps
+        // keep the order their hash seed gives them
+        if o.len() > 7 {
+            x.count("probe.dependency_map_too_large_to_force");
+            return;
+        }
         // every replaced variable must have been recorded as a dependency by now
         if let Some(k) = o.iter().find(|k| !inst.decision_variable_dependency.contains_key(k)) {
             x.violate("C04:instance:dependency-not-recorded", format!("after the substitutions the instance has no dependency entry for the replaced variable {k} (entries: {:?})", { let mut v: Vec<&u64> = inst.decision_variable_dependency.keys().collect(); v.sort(); v }));
